@@ -376,7 +376,7 @@ def newaxis(self, name, values=None, pos=0):
         raise ValueError("dimension already present: "+name)
 
     assert type(pos) is int
-    if pos == -1: pos = len(self.dims)
+    if pos < 0: pos += len(self.dims) + 1 # as numpy.expand_dims: -1 after the last dimension, -2 before it...
 
     newaxis = (slice(None),)*pos + (np.newaxis,) # pad with ":" to match pos
     newvalues = self.values[newaxis] 
